@@ -169,7 +169,7 @@ def has_unknown(spec):
 
 
 # ---- the stored tree (an internal stage of the tie) ---------------------------------------------
-def store_summary(path, type_tags):
+def store_summary(path, type_tags, tree=True):
     """recorded skip lists + per object group the user-level keys with their namespace"""
     import tempfile
     import zarr
@@ -202,7 +202,7 @@ def store_summary(path, type_tags):
         rev = {f"{t.__module__}.{t.__qualname__}": tag for tag, t in type_tags.items()}
         return {"names": sorted(root.attrs.get("_autoserialize_skip_names", [])),
                 "types": [rev.get(t, t) for t in root.attrs.get("_autoserialize_skip_types", [])],
-                "tree": walk(root)}
+                "tree": walk(root) if tree else None}
     finally:
         if tmp:
             shutil.rmtree(tmp, ignore_errors=True)
